@@ -4,8 +4,11 @@ import (
 	"errors"
 	"fmt"
 	"log"
+	"math"
 	"reflect"
 	"sort"
+	"strconv"
+	"strings"
 	"time"
 
 	"github.com/goccy/go-yaml"
@@ -488,9 +491,162 @@ func ExportNodes(nc *nats.Conn, id string) ([]byte, error) {
 
 	necNodes = append(necNodes, nec)
 
-	ne := SiotExport{Nodes: necNodes}
+	return exportYAML(necNodes), nil
+}
 
-	return yaml.Marshal(ne)
+// exportYAML writes nodes in the YAML export format. This is done here
+// rather than with yaml.Marshal because the YAML library writes strings such
+// as null, ~, - a, ? a or .inf as plain scalars (which then read back as
+// something else or not at all), rewrites CR/LF, and writes values like 1e+06
+// which it cannot parse again. Everything written here reads back unchanged
+// with yaml.Unmarshal.
+func exportYAML(nodes []data.NodeEdgeChildren) []byte {
+	var b strings.Builder
+
+	var writeNode func(n data.NodeEdgeChildren, indent string)
+
+	writePoints := func(name string, pts data.Points, indent string) {
+		if len(pts) <= 0 {
+			return
+		}
+
+		b.WriteString(indent + name + ":\n")
+
+		for _, p := range pts {
+			prefix := indent + "- "
+			field := func(name, value string) {
+				b.WriteString(prefix + name + ": " + value + "\n")
+				prefix = indent + "  "
+			}
+
+			if p.Type != "" {
+				field("type", yamlString(p.Type))
+			}
+			if p.Key != "" {
+				field("key", yamlString(p.Key))
+			}
+			if p.Value != 0 {
+				field("value", yamlFloat(p.Value))
+			}
+			if p.Text != "" {
+				field("text", yamlString(p.Text))
+			}
+			if len(p.Data) > 0 {
+				d := make([]string, len(p.Data))
+				for i, v := range p.Data {
+					d[i] = strconv.Itoa(int(v))
+				}
+				field("data", "["+strings.Join(d, ", ")+"]")
+			}
+			if p.Tombstone != 0 {
+				field("tombstone", strconv.Itoa(p.Tombstone))
+			}
+			if p.Origin != "" {
+				field("origin", yamlString(p.Origin))
+			}
+			if prefix == indent+"- " {
+				// nothing set in this point
+				b.WriteString(prefix + "{}\n")
+			}
+		}
+	}
+
+	writeNode = func(n data.NodeEdgeChildren, indent string) {
+		b.WriteString(indent + "- id: " + yamlString(n.ID) + "\n")
+		indent += "  "
+		b.WriteString(indent + "type: " + yamlString(n.Type) + "\n")
+		b.WriteString(indent + "parent: " + yamlString(n.Parent) + "\n")
+		writePoints("points", n.Points, indent)
+		writePoints("edgePoints", n.EdgePoints, indent)
+		if len(n.Children) > 0 {
+			b.WriteString(indent + "children:\n")
+			for _, c := range n.Children {
+				writeNode(c, indent)
+			}
+		}
+	}
+
+	b.WriteString("nodes:\n")
+	for _, n := range nodes {
+		writeNode(n, "")
+	}
+
+	return []byte(b.String())
+}
+
+// yamlString returns s as a plain YAML scalar if that is obviously safe
+// (starts with a letter, only letters, digits, spaces and a few harmless
+// punctuation characters, no trailing space, not a word YAML gives a meaning
+// to), and as a double quoted scalar otherwise.
+func yamlString(s string) string {
+	plain := s != "" && s[len(s)-1] != ' '
+
+	for i, r := range s {
+		letter := (r >= 'a' && r <= 'z') || (r >= 'A' && r <= 'Z')
+		if i == 0 && !letter {
+			plain = false
+		}
+		if !letter && !(r >= '0' && r <= '9') && !strings.ContainsRune(" _-./@()+", r) {
+			plain = false
+		}
+	}
+
+	switch strings.ToLower(s) {
+	case "null", "true", "false", "yes", "no", "on", "off", "y", "n":
+		plain = false
+	}
+
+	if plain {
+		return s
+	}
+
+	var b strings.Builder
+	b.WriteByte('"')
+	for _, r := range s {
+		switch {
+		case r == '"':
+			b.WriteString(`\"`)
+		case r == '\\':
+			b.WriteString(`\\`)
+		case r == '\n':
+			b.WriteString(`\n`)
+		case r == '\r':
+			b.WriteString(`\r`)
+		case r < 0x20 || r == 0x7f:
+			b.WriteString(fmt.Sprintf(`\x%02x`, r))
+		case r == 0x85 || r == 0xa0 || r == 0x2028 || r == 0x2029 || r == 0xfeff:
+			b.WriteString(fmt.Sprintf(`\u%04x`, r))
+		default:
+			b.WriteRune(r)
+		}
+	}
+	b.WriteByte('"')
+
+	return b.String()
+}
+
+// yamlFloat writes a float with a decimal point, which the YAML library needs
+// to read the exponent notation back as a number
+func yamlFloat(v float64) string {
+	switch {
+	case math.IsInf(v, 1):
+		return ".inf"
+	case math.IsInf(v, -1):
+		return "-.inf"
+	case math.IsNaN(v):
+		return ".nan"
+	}
+
+	s := strconv.FormatFloat(v, 'g', -1, 64)
+	if !strings.Contains(s, ".") {
+		if i := strings.IndexByte(s, 'e'); i >= 0 {
+			s = s[:i] + ".0" + s[i:]
+		} else {
+			s += ".0"
+		}
+	}
+
+	return s
 }
 
 func exportNodesHelper(nc *nats.Conn, node *data.NodeEdgeChildren) error {
